@@ -141,6 +141,36 @@ theorem decode_writeCmd_exact (B : Nat) (hb : 32 ≤ B) (args : List (List UInt8
     (rest : List UInt8) : decodeArgv B (writeCmd exactLead args ++ rest) = some (args, rest) :=
   decode_writeCmd B hb exactLead args hs (exactLead_ok _) (fun _ _ => exactLead_ok _) rest
 
+/-! ### the caller's argv is left alone: a second write of the same command is the same frame -/
+
+private theorem writeArgsSt_eq (lead : Nat → Nat) (args : List (List UInt8)) :
+    writeArgsSt lead args = (writeArgs lead args, args) := by
+  induction args with
+  | nil => rfl
+  | cons a as ih => simp only [writeArgsSt, ih, writeArgs]
+
+/-- `writeCmd` is a function of the argv only, and the argv (the caller's slice, which belongs to the
+    `Completed` command) is exactly what it was before the call -/
+theorem writeCmd_leaves_argv (lead : Nat → Nat) (cmd : List (List UInt8)) :
+    writeCmdSt lead cmd = (writeCmd lead cmd, cmd) := by
+  simp only [writeCmdSt, writeArgsSt_eq, writeCmd]
+
+/-- writing the same command again (retry of a read-only command, MOVED/ASK redirect, reuse of a pinned
+    command) emits the same frame again and still leaves the argv unchanged -/
+theorem writeCmd_idempotent (lead : Nat → Nat) (cmd : List (List UInt8)) :
+    writeTwice lead cmd = (writeCmd lead cmd ++ writeCmd lead cmd, cmd) := by
+  simp only [writeTwice, writeCmd_leaves_argv]
+
+/-- … so both frames of a command written twice decode to the argv -/
+theorem rewrite_decodes (B : Nat) (hb : 32 ≤ B) (lead : Nat → Nat) (args : List (List UInt8))
+    (hs : GoSized args) (hn : LeadOK lead args.length) (h : ∀ a ∈ args, LeadOK lead a.length) :
+    decodeAll B 2 (writeTwice lead args).1 = some [args, args] ∧ (writeTwice lead args).2 = args := by
+  rw [writeCmd_idempotent]
+  refine ⟨?_, rfl⟩
+  have := pipeline_decodes B hb lead [args, args] (by
+    intro c hc; simp only [List.mem_cons, List.not_mem_nil, or_false, or_self] at hc; subst hc; exact ⟨hs, hn, h⟩)
+  simpa using this
+
 /-- a wrong leading power is visible: one power too small at `n = 100` writes `:0` for `100` -/
 example : writeN (fun _ => 10) 42 100 = [42, 58, 48, 13, 10] := by
   simp [writeN, loop]
